@@ -240,6 +240,10 @@ Lemma iexec_try b cs f : iexec cm funs clos (S n) fn (STry b cs f) fr g =
       end
   end.
 Proof. reflexivity. Qed.
+Lemma iexec_ifinst x T t e : iexec cm funs clos (S n) fn (SIfInst x T t e) fr g =
+  if (match rd fn x fr g with VObj _ _ _ => cm T (rd fn x fr g) | _ => false end)
+  then iexec cm funs clos n fn t fr g else iexec cm funs clos n fn e fr g.
+Proof. reflexivity. Qed.
 Lemma iexec_throw e : iexec cm funs clos (S n) fn (SThrow e) fr g =
   match ev e fr g with
   | Res (EV v) fr g => Res (IThrow (thrown_of v)) fr g
@@ -436,6 +440,10 @@ Lemma rexec_try b cs f : rexec cm funs clos (S n) fn (RTry b cs f) fr g =
           end
       end
   end.
+Proof. reflexivity. Qed.
+Lemma rexec_ifinst x T t e : rexec cm funs clos (S n) fn (RIfInst x T t e) fr g =
+  if (match rd fn x fr g with VObj _ _ _ => cm T (rd fn x fr g) | _ => false end)
+  then rexec cm funs clos n fn t fr g else rexec cm funs clos n fn e fr g.
 Proof. reflexivity. Qed.
 Lemma rexec_throw e : rexec cm funs clos (S n) fn (RThrowSt e) fr g =
   match ev e fr g with
@@ -869,6 +877,76 @@ Lemma reval_callv cf f a fr g : reval cf funs clos fn (ECallV f a) fr g =
   end.
 Proof. reflexivity. Qed.
 
+Lemma ieval_prop cf e fr g : ieval cf funs clos fn (EProp e) fr g =
+  match ieval cf funs clos fn e fr g with
+  | Res (EV v) fr g =>
+      match obj_id v with
+      | Some i => Res (EV (hget i (gheap g))) fr g
+      | None => Res (EX (VErr "property of a non-object")) fr g
+      end
+  | r => r
+  end.
+Proof. reflexivity. Qed.
+Lemma ieval_setprop cf e w fr g : ieval cf funs clos fn (ESetProp e w) fr g =
+  match ieval cf funs clos fn w fr g with
+  | Res (EV wv) fr g =>
+      match ieval cf funs clos fn e fr g with
+      | Res (EV v) fr g =>
+          match obj_id v with
+          | Some i => Res (EV wv) fr (set_prop i wv g)
+          | None => Res (EX (VErr "property of a non-object")) fr g
+          end
+      | r => r
+      end
+  | r => r
+  end.
+Proof. reflexivity. Qed.
+Lemma ieval_hi cf e fr g : ieval cf funs clos fn (EHi e) fr g =
+  match ieval cf funs clos fn e fr g with
+  | Res (EV v) fr g =>
+      match obj_id v with
+      | Some i => Res (EV (VStr ("hi" ++ to_str (hget i (gheap g))))) fr g
+      | None => Res (EX (VErr "method call on a non-object")) fr g
+      end
+  | r => r
+  end.
+Proof. reflexivity. Qed.
+
+Lemma reval_prop cf e fr g : reval cf funs clos fn (EProp e) fr g =
+  match reval cf funs clos fn e fr g with
+  | Res (EV v) fr g =>
+      match obj_id v with
+      | Some i => Res (EV (hget i (gheap g))) fr g
+      | None => Res (EX (VErr "property of a non-object")) fr g
+      end
+  | r => r
+  end.
+Proof. reflexivity. Qed.
+Lemma reval_setprop cf e w fr g : reval cf funs clos fn (ESetProp e w) fr g =
+  match reval cf funs clos fn w fr g with
+  | Res (EV wv) fr g =>
+      match reval cf funs clos fn e fr g with
+      | Res (EV v) fr g =>
+          match obj_id v with
+          | Some i => Res (EV wv) fr (set_prop i wv g)
+          | None => Res (EX (VErr "property of a non-object")) fr g
+          end
+      | r => r
+      end
+  | r => r
+  end.
+Proof. reflexivity. Qed.
+Lemma reval_hi cf e fr g : reval cf funs clos fn (EHi e) fr g =
+  match reval cf funs clos fn e fr g with
+  | Res (EV v) fr g =>
+      match obj_id v with
+      | Some i => Res (EV (VStr ("hi" ++ to_str (hget i (gheap g))))) fr g
+      | None => Res (EX (VErr "method call on a non-object")) fr g
+      end
+  | r => r
+  end.
+Proof. reflexivity. Qed.
+
 Lemma reval_postinc cf x fr g : reval cf funs clos fn (EPostInc x) fr g =
   let '(nv, ov) := incr_value (rd fn x fr g) in
   let '(fr', g') := wr fn x nv fr g in Res (EV ov) fr' g'.
@@ -891,7 +969,8 @@ Proof.
     try rewrite ieval_class, reval_class; try rewrite ieval_same, reval_same;
     try rewrite ieval_match, reval_match;
     try rewrite ieval_idx, reval_idx; try rewrite ieval_idxinc, reval_idxinc;
-    try rewrite ieval_callv, reval_callv.
+    try rewrite ieval_callv, reval_callv;
+    try rewrite ieval_prop, reval_prop; try rewrite ieval_setprop, reval_setprop; try rewrite ieval_hi, reval_hi.
   - (* EBin *)
     assert (S : islow cf1 o a b fr g = reval cf2 funs clos fn (EBin o a b) fr g).
     { unfold islow. rewrite reval_bin. rewrite H. destruct (reval cf2 funs clos fn a fr g) as [|[va|x] fr0 g0]; try reflexivity.
@@ -926,6 +1005,10 @@ Proof.
     destruct v; try reflexivity. rewrite H0.
     destruct (reval_args cf2 funs clos fn a fr0 g0) as [|[vs|x] fr1 g1]; try reflexivity.
     rewrite cf_eq. reflexivity.
+  - (* EProp *) rewrite H. reflexivity.
+  - (* ESetProp *) rewrite H0. destruct (reval cf2 funs clos fn v fr g) as [|[wv|x] fr0 g0]; try reflexivity.
+    rewrite H. reflexivity.
+  - (* EHi *) rewrite H. reflexivity.
   - (* EMatch *)
     rewrite H. destruct (reval cf2 funs clos fn s fr g) as [|[v|x] fr0 g0]; try reflexivity. apply H0.
   - (* ANil *) split; reflexivity.
@@ -1449,6 +1532,11 @@ Proof.
   - (* SThrow *)
     rewrite iexec_throw, rexec_throw, (ieval_reval funs clos fn _ _ Hcf).
     destruct (reval (rcallf cmr funs clos n) funs clos fn e fr g) as [|[v|x] f1 g1]; simpl; auto.
+  - (* SIfInst *)
+    apply andb_prop in Hs as [Hs1 Hs2]. apply andb_prop in Ho as [Ho1 Ho2]. apply andb_prop in Hc as [Hc1 Hc2].
+    rewrite iexec_ifinst, rexec_ifinst. rewrite <- Hcm.
+    destruct (match rd fn x fr g with VObj _ _ _ => cmi T (rd fn x fr g) | _ => false end);
+      apply IH; auto using shorter_cons.
 Qed.
 End Step.
 
